@@ -481,6 +481,17 @@ theorem loopR_break_sound (q : Quant K) (hq : LawfulQuant q) (h : HF2 K) (hn : 0
   rw [le_div_iff₀ hd] at this
   linarith
 
+/-- **The 2-D walk, total statement**: with `num_cells` units of fuel the walk ends, traces only existing segments and covers every
+existing segment the moving box gets over within `[0, max_time_of_impact]` (`walk2_terminates` + `walk2_trace_sound` + `walk2_covers`). -/
+theorem walk2_total (q : Quant K) (hq : LawfulQuant q) (hc : LawfulCeil q) (h : HF2 K) (hn : 0 < h.n) (hs : 0 < h.scale.x)
+    (b : Aabb2 K) (hbox : b.mins.x ≤ b.maxs.x) (vel : V2 K) (maxToi : K) (fuel : Nat) (hf : h.n ≤ fuel) :
+    ∃ res, @HW2.walk K (fieldNum K sq) q h b vel maxToi fuel = some res ∧ (∀ x ∈ res, SegAt h x) ∧
+      ∀ (k : Int) (t : K), SegAt h k → 0 ≤ t → t ≤ maxToi →
+        b.mins.x + t * vel.x < X2 sq q h (k + 1) → X2 sq q h k < b.maxs.x + t * vel.x → k ∈ res := by
+  obtain ⟨res, hw⟩ := walk2_terminates sq q h b vel maxToi fuel hf
+  exact ⟨res, hw, walk2_trace_sound sq q h b vel maxToi fuel res hw,
+    fun k t hk t0 t1 o1 o2 => walk2_covers sq q hq hc h hn hs b hbox vel maxToi fuel res hw k hk t t0 t1 o1 o2⟩
+
 /-- non-vacuity of `LawfulCeil`: the rational ceiling -/
 example : LawfulCeil (K := ℚ) ⟨Rat.floor, Rat.ceil, fun i => (i : ℚ)⟩ := ⟨fun _ => Rat.le_ceil⟩
 
